@@ -350,7 +350,7 @@ ACTIONS = [a for a in FPARSER._actions if a.option_strings and a.dest not in ("h
 NACT = len(ACTIONS)
 STR_VALUES = ["abc", "a b", "x=y", "0", "é", "[not a list", "it's", "1.10", "false"]
 INT_VALUES = [0, 1, 7, 12]
-LIST_VALUES = [["PUBLIC:a"], ["PUBLIC:a", "HIDDEN:b.*"], ["b", "a", "b"], ["0"]]
+LIST_VALUES = [["PUBLIC:a"], ["PUBLIC:a", "HIDDEN:b.*"], ["b", "a", "b"], ["0"], ["docs/my templates", "x\ty", "plain"], ["a,b", "c"]]
 
 
 def _key(a):
@@ -481,7 +481,7 @@ def check_option(ai, vi, fmt, mode):
     parts=lambda: list(range(NACT)), timeout=(200, 900), cls="E", tracing="concrete-after-choice", twin="first",
     code=["pydoctor.options.get_parser (every action of the real parser)", "pydoctor._configparser.TomlConfigParser.parse", "IniConfigParser.parse", "CompositeConfigParser.parse", "ValidatorParser.parse",
           "configargparse conversion of config items to command-line arguments"],
-    bounds={"quick": "every option of the argument parser (41) x representative values of its kind (flags on/off, counts 0..3, ints 0/1/7/12, 9 strings, 4 lists) x {pyproject.toml, ini with bare values, ini with quoted / python-list values} x {file alone == command line alone, command line overrides file, unknown key warned and ignored}; file content passed in memory",
+    bounds={"quick": "every option of the argument parser (41) x representative values of its kind (flags on/off, counts 0..3, ints 0/1/7/12, 9 strings, 6 lists incl. items with inner spaces, tabs and commas) x {pyproject.toml, ini with bare values, ini with quoted / python-list values} x {file alone == command line alone, command line overrides file, unknown key warned and ignored}; file content passed in memory",
             "thorough": "same"},
     stubs=["the parser's default config file list is emptied on the harness's own parser instance; file content is handed over through configargparse's config_file_contents"],
     outside="reading the files from disk / cwd lookup, the -c/--config option, conversion of the namespace to Options (converters), values outside the tables",
